@@ -80,7 +80,9 @@ Definition irun_eqb (a b : irun) : bool :=
 (* programs whose values the executable float instance can compute: no float '^' and no float '%' *)
 Fixpoint fpow_free (tys : list ty) (e : expr) : bool :=
   match e with
-  | ELit _ _ | ELitF _ _ | EVar _ | ESVar _ => true
+  | ELit _ _ | ELitF _ _ | EVar _ | ESVar _ | EGlob _ _ => true
+  | ECall _ _ _ _ _ body a b =>
+      fpow_free tys body && fpow_free tys a && match b with Some e => fpow_free tys e | None => true end
   | EParen a | ENeg a | ENot a | ECast _ a => fpow_free tys a
   | EPow a b => fpow_free tys a && fpow_free tys b && match ety tys a with Some (TI _) => true | _ => false end
   | EArith op a b =>
@@ -136,12 +138,12 @@ Definition mismatch (c : case_t) : bool :=
   let '(f, o) := c in
   if negb (check_func f && locals_ok f && forallb (fun r => args_ok (f_params f) (fst r)) (o_runs o)) then true
   else
-    match compile f with
-    | None => negb (N.eqb (o_stage o) st_compile)
-    | Some w =>
-        negb (list_eqb Z.eqb (enc_func w) (o_code o)) ||
-        negb (list_eqb imp_eqb (imports_l (w_body w)) (o_imports o)) ||
-        if validate w then
+    match compile f, compile_module f with
+    | Some w, Some ws =>
+        (* the code-section entries of the helpers (in order) and of f, and the module's imports *)
+        negb (list_eqb Z.eqb (concat (enc_module ws)) (o_code o)) ||
+        negb (list_eqb imp_eqb (module_imports ws) (o_imports o)) ||
+        if forallb validate ws then
           negb (N.eqb (o_stage o) st_ok) ||
           (evaluable f &&
            existsb (fun mr => match fst mr with
@@ -152,6 +154,7 @@ Definition mismatch (c : case_t) : bool :=
                                           end
                               end) (zip (model_results f w o) (o_runs o)))
         else negb (N.eqb (o_stage o) st_validate)
+    | _, _ => negb (N.eqb (o_stage o) st_compile)
     end.
 
 (* ---- the property on the implementation's observations ---- *)
@@ -223,12 +226,12 @@ Definition sres_dump (t : ty) (r : res (val fo)) : (N * Z) :=
 Definition model_dump (c : case_t) :=
   let '(f, o) := c in
   (check_func f, locals_ok f, map tag_id (static_flags f),
-   match compile f with
-   | None => None
-   | Some w => Some (validate w, enc_func w, imports_l (w_body w),
+   match compile f, compile_module f with
+   | Some w, Some ws => Some (forallb validate ws, concat (enc_module ws), module_imports ws,
                      map (fun x => (fst (snd x),
                                     match fst (fst (fst x)) with Some m => wres_irun m | None => None end,
                                     sres_dump (f_ret f) (snd (fst (fst x))),
                                     map tag_id (snd (fst x))))
                          (zip (zip (zip (model_results f w o) (spec_results f o)) (flag_results f o)) (o_runs o)))
+   | _, _ => None
    end).
